@@ -136,8 +136,28 @@ def wrapper(ctx, rel, name, kernel, vector):
     args = [norm(a) for a in c.args]
     ctx.ob('WRAPPER', loc, 'periodic flags are passed in order (a, b, c) together with the cell vectors', args[2:] == ['bvects', 'pbc[0]', 'pbc[1]', 'pbc[2]'] or args[3:] == ['pbc[0]', 'pbc[1]', 'pbc[2]'],
            str(args), node=c)
-    bv = [s for s in ast.walk(fn) if isinstance(s, ast.Assign) and norm(s.targets[0]) == args[2]]
-    ctx.ob('WRAPPER', loc, 'the cell vectors are those of the given box', len(bv) == 1 and norm(bv[0].value) == 'box.vects', node=c)
+    # the cell vectors handed to the kernel are the box's *current* vectors on every call (a Box is mutable: two calls on one
+    # object with the cell changed in between, then a call with another box)
+    seen = []
+    ev0 = SymEval(module_aliases(ctx.mod(rel)))
+    ev0.module = ctx.mod(rel)
+    V1, V2, V3 = symarray('u', (3, 3), real=True), symarray('w', (3, 3), real=True), symarray('z', (3, 3), real=True)
+    bx = SymObj(None, {'vects': V1}, 'box')
+    bx2 = SymObj(None, {'vects': V3}, 'box2')
+
+    def kern0(p0, p1, bvv, fa, fb, fc):
+        seen.append(bvv)
+        return (np.asarray(p1, dtype=object) - np.asarray(p0, dtype=object)) if vector else np.sum((np.asarray(p1, dtype=object) - np.asarray(p0, dtype=object)) ** 2, axis=1)
+    okv = True
+    try:
+        for b_, want in ((bx, V1), (bx, V2), (bx2, V3), (bx, V2)):
+            if want is V2:
+                bx.attrs['vects'] = V2
+            ev0.run_fn(fn, env={'pos_0': symarray('p', (2, 3), real=True), 'pos_1': symarray('q', (2, 3), real=True), 'box': b_, 'pbc': (True, False, True), kernel: kern0})
+            okv = okv and len(seen) > 0 and equal(np.asarray(seen[-1], dtype=object), want, deep=False)
+    except Opaque as e:
+        raise AnalysisError('%s: %s' % (loc, e))
+    ctx.ob('WRAPPER', loc, 'the cell vectors handed to the kernel are the current vectors of the box given in that call (also after the same Box object was changed in place between calls)', okv and len(seen) == 4, node=c)
     # broadcasting, via evaluation with the kernel bound to the direct separation
     ev = SymEval(module_aliases(ctx.mod(rel)))
     B = symarray('b', (3, 3), real=True)
